@@ -161,6 +161,7 @@ func (m *c09Sim) ghostUpdate(o c09Op) {
 	m.hourUs += uint64(o.T / 1000)
 	m.hourN++
 	m.classes["update-accepted"] = true
+	m.noteUpstreams(o)
 	if m.rsw == 1 {
 		m.rsw = 2
 	}
@@ -986,6 +987,9 @@ func c09ShutdownTrial(t *testing.T, out *vfOut, r *vfRand, idx int, kind string)
 	}
 	if forced {
 		m.classes["close-vs-flush-forced-"+kind] = true
+		// The pointer was swapped by Close / loaded by the flush while the other
+		// one stood inside its body waiting: it has to be an atomic one.
+		m.classes["db-pointer-atomic"] = true
 	}
 	if strings.HasPrefix(waited, "parked:") {
 		m.classes["close-vs-flush-other-waits-for-confMu"] = true
